@@ -297,8 +297,17 @@ impl Finds {
                                 _ => {}
                             }
                             if !oracle::stable(lobj, &q, &[&cs[..sp], &cs[sp..]]) {
-                                cx.count("skipped_unstable");
-                                continue;
+                                // still "the word spelled as two words" when tokenising the query only strips symbols
+                                // at the new word edges ("c++ 11" for "c++11"): two words with the same letters and digits
+                                let tq = tokenize_query(&q, lobj);
+                                let letters = |x: &[char]| -> Vec<char> { x.iter().cloned().filter(|c| c.is_alphanumeric()).collect() };
+                                let typed: Vec<char> = tq.words.iter().flat_map(|w| tq.chars[w.slice.0..w.slice.1].to_vec()).collect();
+                                if tq.words.len() == 2 && letters(&typed) == letters(&cs) && cs.iter().any(|c| !c.is_alphanumeric()) {
+                                    cx.count("split next to symbols inside the word");
+                                } else {
+                                    cx.count("skipped_unstable");
+                                    continue;
+                                }
                             }
                             cx.ctx(format!("C14 lang={} title={:?} q={:?}", lang, rec.1, q));
                             lead_in(cx, st, &q);
@@ -472,7 +481,7 @@ impl Prop for Finds {
             Which::Prefix => vec![("prefix len 1", 500, 5000), ("prefix len 2", 500, 5000), ("prefix len >3", 2000, 20000), ("word with stem < len", 200, 2000), ("function word", 20, 200), ("word > 20 letters", 20, 200), ("judged queries preceded by the searches of a person typing them", 5000, 50000), ("titles with more than 20 words", 100, 1000)],
             Which::Typo => vec![("substitution at first", 50, 500), ("insertion at first", 50, 500), ("deletion at first", 50, 500), ("transposition at first", 50, 500), ("transposition at last", 50, 500), ("len 5", 200, 2000), ("len >20", 100, 1000), ("judged queries preceded by the searches of a person typing them", 5000, 50000), ("titles with more than 20 words", 30, 300), ("exhaustive-letter edits", 30000, 250000), ("exhaustive-letter words that are function words", 150, 150)],
             Which::Whole => vec![("whole title", 1000, 10000), ("first last", 300, 3000), ("judged queries preceded by the searches of a person typing them", 5000, 50000), ("last first", 300, 3000), ("title with function word", 50, 500), ("titles with more than 20 words", 200, 2000), ("catalogues searched while small, then grown and given limit = N", 6, 60)],
-            Which::SplitJoin => vec![("split", 2000, 20000), ("split after first letter", 200, 2000), ("judged queries preceded by the searches of a person typing them", 5000, 50000), ("join", 100, 1000), ("join with 1-letter first word", 3, 30), ("titles with more than 20 words", 100, 1000), ("split followed by a separator", 20000, 200000)],
+            Which::SplitJoin => vec![("split", 2000, 20000), ("split after first letter", 200, 2000), ("judged queries preceded by the searches of a person typing them", 5000, 50000), ("join", 100, 1000), ("join with 1-letter first word", 3, 30), ("titles with more than 20 words", 100, 1000), ("split followed by a separator", 20000, 200000), ("split next to symbols inside the word", 300, 3000)],
         }
     }
     fn ratios(&self) -> Vec<(&'static str, &'static str, f64, f64)> {
